@@ -38,7 +38,8 @@ OTHERS = ['-x', '--opt=value', '--opt=svc.yaml', '--file', 'word', 'two words', 
           'dir/', 'dir', 'a=b.json', '--config=db.json', 'svc.test', 'notes.txt.yaml']
 GOOD_ARGS = ['svc.yaml', 'svc.test.toml', 'svc.test.eu.json', 'db.json', 'plain.yml', 'svc.json', 'svc.toml', 'svc.test.json', 'svc.test.yaml', 'svc.test.yml', 'svc.test.jsonl', 'svc.test.json-pretty',
              'db.yaml', 'db.toml', 'plain.json', './svc.yaml', 'sub/../svc.test.toml', 'svc.test.eu.yaml', 'svc.test.eu.toml',
-             'sub/svc.yaml', 'dir/svc.yaml', 'sub/svc.json', 'dir/db.json', 'sub/db.json', 'dir/svc.toml']
+             'sub/svc.yaml', 'dir/svc.yaml', 'sub/svc.json', 'dir/db.json', 'sub/db.json', 'dir/svc.toml',
+             'prod.yaml', 'prod.json', 'lnk.toml', 'lnk.yaml', 'sub/dblink.json', 'sub/dblink.yaml']
 BAD_ARGS = ['bad-required.yaml', 'bad-required.json', 'orphan.child.yaml', 'bad-parent.yaml', 'bad-parent.toml', 'syntax.json', 'syntax.yaml']
 
 
@@ -96,6 +97,9 @@ def setup(d):
             f.write(ser.write('yaml', [doc], None, 'quoted'))
         with open(os.path.join(d, sub, 'db.json'), 'w') as f:
             f.write(ser.write('json', [dict(doc, db=True)]))
+    os.symlink('svc.yaml', os.path.join(d, 'prod.yaml'))                 # a symlink to a layer file (inherits from the target's name)
+    os.symlink('svc.test.toml', os.path.join(d, 'lnk.toml'))
+    os.symlink('../db.json', os.path.join(d, 'sub', 'dblink.json'))
     os.makedirs(os.path.join(d, 'tmp'))
     os.makedirs(os.path.join(d, 'pathdir'))
 
